@@ -68,7 +68,7 @@ theorem setstate_of_getstate {L : Layout} {x : Inst} {names : List String} {cach
 /-- what a successful round trip guarantees -/
 structure TripOK (s : Summary) (op : Op) (x y : Inst) : Prop where
   fields : ∀ n ∈ s.names, read s.layout y n = read s.layout x n
-  cacheGS : s.gs ≠ .dflt → s.cached = true → k1 s = false → k10a s op = false → k10c s = false →
+  cacheGS : s.gs ≠ .dflt → s.cached = true → k1 s = false → inhLosesCache s = false →
     read s.layout y CACHE = some .none
   cacheDflt : s.gs = .dflt → read s.layout y CACHE = (read s.layout x CACHE).map (transfer op)
 
@@ -98,11 +98,11 @@ theorem cached_writable {s : Summary} (I : Inv s) (hc : s.cached = true) : writa
     subst hc
     exact I.hashCacheW _ _ _ hh
 
-/-- **the round trip**, for an instance whose fields are all set (to tokens), outside K4 and the failing
+/-- **the round trip**, for an instance whose fields are all set (to tokens), outside an inherited pair that lacks fields (opt-out) and the failing
     default reductions (K11 / K10b) -/
 theorem roundtrip_ok {s : Summary} (I : Inv s) (hok : s.ok = true) {op : Op} {x : Inst} {t : String → String}
     (hx : ∀ n ∈ s.names, read s.layout x n = some (.tok (t n)))
-    (hk4 : k4 s = false)
+    (hk4 : inhLosesFields s = false)
     (hd : s.gs = .dflt → (isLow op && refuses01 s) = false ∧ (s.frozen && anySlotSet s.layout x) = false) :
     ∃ y, roundtrip s op x = .ok y ∧ TripOK s op x y := by
   have hne : ∀ n ∈ s.names, n ≠ CACHE := fun n hn => mem_names_ne_cache I hok hn
@@ -116,7 +116,7 @@ theorem roundtrip_ok {s : Summary} (I : Inv s) (hok : s.ok = true) {op : Op} {x 
       cases own with
       | true => intro n hn; rw [(I.gsOwn _ _ hg).1]; exact hn
       | false =>
-        unfold k4 at hk4
+        unfold inhLosesFields at hk4
         rw [hg] at hk4
         simp only [List.any_eq_false, Bool.not_eq_true', List.contains_eq_mem] at hk4
         intro n hn
@@ -126,22 +126,31 @@ theorem roundtrip_ok {s : Summary} (I : Inv s) (hok : s.ok = true) {op : Op} {x 
     rw [hst]
     simp only
     have hcn : CACHE ∉ names := fun h => hne _ (hsub _ h) rfl
-    by_cases hlow : (isLow op && st.isEmpty) = true
+    by_cases hlow : (isLow op && st.isEmpty && !cache) = true
     · simp only [hlow, if_true]
-      simp only [Bool.and_eq_true, List.isEmpty_iff] at hlow
+      simp only [Bool.and_eq_true, List.isEmpty_iff, Bool.not_eq_true'] at hlow
       have hnil : names = [] := by
         have := (getstateGen_spec names hst).1
-        rw [hlow.2] at this
+        rw [hlow.1.2] at this
         exact this.symm
       refine ⟨_, rfl, ?_, ?_, ?_⟩
       · intro n hn
         have := hsup n hn
         rw [hnil] at this
         simp at this
-      · intro _ hc _ h10a _
-        unfold k10a at h10a
-        rw [hg, hnil] at h10a
-        simp [hlow.1, hc] at h10a
+      · intro _ hc hk1 h10c
+        -- a caching class's generated pair always transports a state: this branch is not taken
+        exfalso
+        have hcf : cache = false := hlow.2
+        cases own with
+        | true =>
+          have := (I.gsOwn _ _ hg).2
+          rw [cached_lastCache I hc hk1] at this
+          rw [this] at hcf; cases hcf
+        | false =>
+          unfold inhLosesCache at h10c
+          rw [hg, hcf] at h10c
+          simp [hc] at h10c
       · intro h; rw [hg] at h; cases h
     · simp only [hlow, Bool.false_eq_true, if_false]
       obtain ⟨y, hy, hf, hct, _⟩ := setstate_of_getstate (cache := cache) op hst
@@ -151,12 +160,12 @@ theorem roundtrip_ok {s : Summary} (I : Inv s) (hok : s.ok = true) {op : Op} {x 
       · intro n hn
         rw [hf n (hne n hn), hx n hn]
         simp [hsup n hn, transfer_tok]
-      · intro _ hc hk1 _ h10c
+      · intro _ hc hk1 h10c
         apply hct
         cases own with
         | true => rw [(I.gsOwn _ _ hg).2]; exact cached_lastCache I hc hk1
         | false =>
-          unfold k10c at h10c
+          unfold inhLosesCache at h10c
           rw [hg] at h10c
           cases cache with
           | true => rfl
@@ -173,7 +182,7 @@ theorem roundtrip_ok {s : Summary} (I : Inv s) (hok : s.ok = true) {op : Op} {x 
     · intro n hn
       rw [hf n (hne n hn), hx n hn]
       simp [hn, transfer_tok]
-    · intro _ hc _ _ _; exact hct hc
+    · intro _ hc _ _; exact hct hc
     · intro h; rw [hg] at h; cases h
   | dflt =>
     simp only
